@@ -738,6 +738,36 @@ func Describe() string {
 	return cur.describe()
 }
 
+// ThreadInfo describes one unfinished managed goroutine (see Threads).
+type ThreadInfo struct {
+	ID      int
+	Name    string
+	Blocked string // description of the operation it is parked at ("" = running)
+	Site    string // call site of that operation (needs Config.Sites)
+}
+
+// Threads lists the managed goroutines that have not finished, in creation order (leak oracles:
+// compare the IDs with a snapshot taken earlier).
+//
+//go:norace
+func Threads() []ThreadInfo {
+	if cur == nil {
+		return nil
+	}
+	var out []ThreadInfo
+	for _, t := range cur.threads {
+		if t.done {
+			continue
+		}
+		ti := ThreadInfo{ID: t.id, Name: t.name}
+		if t.pending != nil {
+			ti.Blocked, ti.Site = t.pending.desc, t.pending.site
+		}
+		out = append(out, ti)
+	}
+	return out
+}
+
 // Logf appends to the execution log when tracing.
 //
 //go:norace
